@@ -371,6 +371,13 @@ static bool gen_c02(uint64_t seed, const std::string &tier, uint64_t i, Plan &p)
     for (auto &op : p.ops.a) { if (op.gets("op") == "inject" && !placed) { ops2.push(Json::obj().set("op", "boot")); ops2.push(Json::obj().set("op", "sleep").set("s", (long long)r.range(0, 76431))); placed = true; } if (op.gets("op") != "second_send") ops2.push(op); }
     p.ops = ops2;
   }
+  if (i % 8 == 3) {
+    // one failing call of the daemon or the cleaner on a named kind of queue file, early in that file's use: removals that fail
+    // half-way through a state transition must leave a documented state behind
+    Fault f; f.actor = r.chance(0.75) ? "qmail-send" : "qmail-clean"; f.path = r.pick(std::vector<std::string>{"/bounce/", "/info/", "/local/", "/remote/", "/mess/", "/todo/", "/intd/"});
+    f.call = r.chance(0.6) ? C_UNLINK : r.pick(std::vector<CallId>{C_STAT, C_OPEN, C_WRITE, C_FSYNC, C_UTIMES}); f.nth = (int)r.range(1, 3); f.kind = "error"; f.err = r.pick(std::vector<int>{EIO, EROFS, ENOMEM, EACCES});
+    p.faults.push_back(f);
+  }
   p.ops.push(Json::obj().set("op", "settle").set("max_s", 400000));
   for (int q = 0; q < 2; q++) { p.ops.push(Json::obj().set("op", "boot")); if (r.chance(0.5)) p.ops.push(Json::obj().set("op", "sleep").set("s", (long long)r.pick(std::vector<int64_t>{76431, 129601, 300000}))); p.ops.push(Json::obj().set("op", "settle").set("max_s", 400000)); }
   p.knobs.set("max_sim_s", 4000000);
